@@ -26,6 +26,7 @@ func propC08(r *Report, tier string) {
 	ruleExhaustionSticky(r, "K6-exhaustion-sticky")
 	ruleHeapRestoredBeforePeek(r, "K5-heap-restored-before-peek")
 	rulePivotFixedDuringAlignment(r, "K14-pivot-fixed-during-alignment")
+	ruleNestedAdvanceTargetsJoinLevel(r, "K5dep-nested-advance-join-level")
 	ruleFirstCallFlagSiblings(r, "K12-first-call-flag", "index/upsidedown", "UpsideDownCouchTermFieldReader")
 	rulePooledObjectReset(r, "K9b-pooled-tfr-reset", "index/scorch", "IndexSnapshotTermFieldReader", []string{"Next", "Advance"}, "index/scorch.(*IndexSnapshot).TermFieldReader", "index/scorch.(*IndexSnapshot).recycleTermFieldReader")
 	in := findIntroducers(r.P)
